@@ -20,7 +20,7 @@ var c19Builtins = strings.Fields("! ![ !alias !and !catch !escape !eschtml !escu
 
 var c19Args = []string{"''", "-x", "--bogus", "-", "--", "0", "-1", "1", "2", "99999999999999999999", "1.5", "-0", "1e309", "NaN", "abc", "é日", "'a b'", "{}", "{ out x }", "{ c19undefined }", "{ [ -9 ] }",
 	"%[1,2,3]", "%{a:1}", "%[]", "[1]", "[-1]", "[-99]", "[99]", "[..]", "[5..1]", "[1..2]e", "[ 0 ]", "[ -4 ]", "m/(/", "s/a/b/x", "f/(", "$c19undefined", "@c19undefined", "$c19v", "@c19a", "<null>", "<err>", "<!out>",
-	"*", "~", "str", "int", "num", "json", "yaml", "csv", "jsonl", "toml", "bogus-type", ":json", "c19p", "c19fn", "c19v", "c19v=1", "=", "==", "/", ".", "..", "a.b.c", "/a/b", "-n", "-s", "--help", "true", "false", "null",
+	"*", "~", "str", "int", "num", "json", "yaml", "csv", "jsonl", "toml", "bogus-type", "xml", "hcl", "sexp", "commonlog", "paths", "path", "tsv", "bool", "float", "generic", "columns", "base64", "gz", ":json", "c19p", "c19fn", "c19v", "c19v=1", "=", "==", "/", ".", "..", "a.b.c", "/a/b", "-n", "-s", "--help", "true", "false", "null",
 	"'{'", "'}'", "'['", "\"\\n\"", "\"a\\tb\"", "1,2,3", "a:b", "*0", "*1", "*2", "*7", "*-1", "7:", "1:", "0:", ":1", ":a", "a:", "*a", "-1:", "/0", "/a/b/c", ".0", "..1", "{ a: 1 }", "%{--x:str}", "%{flags:%{--x:str}}", "%{AllowAdditional:false}", "AAAAAAAAAAAAAAAAAAAAAAAAAAAAAAAAAAAAAAAAAAAAAAAAAAAAAAAAAAAAAAAAAAAAAAAAAAAAAAAAAAAAAAAAAAAAAAAAAAAA"}
 
 var c19Producers = []string{"tout json [1,2,3]", "tout json '{\"a\":1,\"b\":[1,2]}'", "tout json '{bad'", "tout json ''", "tout json '[1,null]'", "tout json null", "tout int abc", "tout num 1e999", "tout yaml 'a: [1'", "tout yaml '- 1\\n- 2'",
